@@ -32,11 +32,8 @@ def ropts? (s : String) (cm : String) : Option ROpts :=
     if '0' ≤ r ∧ r ≤ '4' then some ⟨a == '1', r.toNat - '0'.toNat, c == '1', d == '1', e == '1', cf⟩ else none
   | _, _ => none
 
-/-- the reader, re-run with a lot of extra fuel: a different outcome means fuel ran out (never reported as `ERR`) -/
-def readChecked (o : ROpts) (m : Mapper) (text : Str) : String :=
-  let a := renderResult (parseText o m text)
-  let b := renderResult (parseTextK (8 * text.length + 64) o m text)
-  if a == b then a else "FUEL"
+/-- the reader (`reader_fuel_suffices`, `tokenizer_fuel_suffices`: its fuel is provably enough, `ERR` is always a refusal) -/
+def readChecked (o : ROpts) (m : Mapper) (text : Str) : String := renderResult (parseText o m text)
 
 /-- pre-order node records `k taxon label len` -/
 def tree? : Nat → List String → Option (NT × List String)
@@ -81,8 +78,6 @@ def handle (ws : List String) : String :=
     match str? text with
     | some (some s) =>
       let ts := tokenizeAll (pu == "1") s
-      let ts2 := tokenize (pu == "1") (2 * s.length + 8) s
-      if ts.ok != ts2.ok || ts.toks.length != ts2.toks.length then "FUEL" else
       " ".intercalate (ts.toks.flatMap showTok ++ [if ts.ok then (if ts.atEof then "EOF1" else "EOF0") else "ERR"])
     | _ => "bad-op"
   | "write" :: wo :: rooting :: weight :: tr =>
